@@ -421,12 +421,23 @@ impl Gen {
     }
 
     fn restore(&mut self) {
+        self.restore_pick(0)
+    }
+
+    /// which: 0 = any savepoint (older ones preferred now and then, so that a second restore in the same
+    /// transaction is legal), 1 = the newest savepoint, 2 = the oldest one
+    fn restore_pick(&mut self, which: u8) {
         let cands: Vec<usize> = (0..self.w.pins.len()).filter(|i| !matches!(self.w.pins[*i].kind, PinKind::Reader(_))).collect();
         if cands.is_empty() {
             return;
         }
-        // prefer older savepoints now and then, so that a second restore in the same transaction is legal
-        let i = if self.r.chance(1, 3) { cands[0] } else { *self.r.pick(&cands) };
+        let i = match which {
+            1 => *cands.last().unwrap(),
+            2 => cands[0],
+            _ => {
+                if self.r.chance(1, 3) { cands[0] } else { *self.r.pick(&cands) }
+            }
+        };
         let before = self.w.wtx.as_ref().unwrap().verif_snapshot();
         let pending_nd = !before.db.tracker.pending_non_durable_commits.is_empty();
         let mut t = self.w.wtx.take().unwrap();
@@ -599,8 +610,14 @@ impl Gen {
         }
     }
 
-    /// directed prefix: a savepoint, non-durable and durable commits after it, a second savepoint, then
-    /// restores (the situations in which the records decide what is freed)
+    /// directed prefixes: the situations in which the records decide what a restore frees
+    ///  0  savepoint, a commit that records allocations under it, a second savepoint AT that commit, restore of
+    ///     the second one (the boundary key of DATA_ALLOCATED / unpersisted.allocations / DATA_FREED)
+    ///  1  two savepoints separated by non-durable commits that free pages, then restore the newer and the older
+    ///     one in the same transaction (restored_transaction, unpersisted freed records)
+    ///  2  two persistent savepoints, one of them deleted in a committing transaction that allocates (purge
+    ///     horizon with a pending deletion), then restore of the remaining one
+    ///  3  mixed: savepoint, several commits of both durabilities, restores
     fn directed(&mut self, variant: u64) {
         let writes = |g: &mut Gen, n: usize| {
             for _ in 0..n {
@@ -609,51 +626,134 @@ impl Gen {
                 }
             }
         };
+        let nd = |g: &mut Gen, yes: bool| {
+            if yes && !g.dead {
+                g.set_durability(true);
+            }
+        };
         self.begin_write();
         writes(self, 2);
         self.commit();
         if self.dead {
             return;
         }
-        self.begin_write();
-        self.savepoint(variant % 2 == 0);
-        writes(self, 2);
-        if variant % 3 != 0 {
-            self.set_durability(true);
-        }
-        self.commit();
-        for k in 0..(1 + variant % 3) {
-            if self.dead {
-                return;
-            }
-            self.begin_write();
-            if k == 1 {
+        match variant % 4 {
+            0 => {
+                self.begin_write();
                 self.savepoint(false);
+                writes(self, 2);
+                nd(self, variant % 8 < 4);
+                self.commit();
+                if self.dead {
+                    return;
+                }
+                self.begin_write();
+                self.savepoint(false);
+                if variant % 3 == 0 {
+                    writes(self, 1);
+                }
+                self.restore_pick(1);
+                if variant % 5 < 2 && !self.dead {
+                    nd(self, variant % 2 == 0);
+                    self.commit();
+                }
             }
-            writes(self, 1 + (variant % 2) as usize);
-            if (variant + k) % 2 == 0 {
-                self.set_durability(true);
+            1 => {
+                self.begin_write();
+                self.savepoint(false);
+                writes(self, 2);
+                nd(self, true);
+                self.commit();
+                if self.dead {
+                    return;
+                }
+                self.begin_write();
+                self.savepoint(false);
+                writes(self, 2);
+                nd(self, variant % 8 < 6);
+                self.commit();
+                if self.dead {
+                    return;
+                }
+                self.begin_write();
+                if variant % 3 == 0 {
+                    writes(self, 1);
+                }
+                self.restore_pick(1);
+                if !self.dead {
+                    self.restore_pick(2);
+                }
+                if !self.dead && variant % 5 < 3 {
+                    nd(self, variant % 2 == 0);
+                    self.commit();
+                }
             }
-            self.commit();
-        }
-        if self.dead {
-            return;
-        }
-        self.begin_write();
-        if variant % 4 == 1 {
-            writes(self, 1);
-        }
-        self.restore();
-        if variant % 5 == 0 && !self.dead {
-            self.restore();
+            2 => {
+                self.begin_write();
+                self.savepoint(true);
+                writes(self, 1);
+                self.commit();
+                if self.dead {
+                    return;
+                }
+                self.begin_write();
+                self.savepoint(true);
+                writes(self, 2);
+                self.commit();
+                if self.dead {
+                    return;
+                }
+                self.begin_write();
+                self.delete_persistent();
+                writes(self, 2);
+                self.commit();
+                if self.dead {
+                    return;
+                }
+                self.begin_write();
+                self.restore_pick(2);
+                if !self.dead && variant % 2 == 0 {
+                    self.commit();
+                }
+            }
+            _ => {
+                self.begin_write();
+                self.savepoint(variant % 8 < 4);
+                writes(self, 2);
+                nd(self, variant % 3 != 0 && variant % 8 >= 4);
+                self.commit();
+                for k in 0..(1 + variant % 3) {
+                    if self.dead {
+                        return;
+                    }
+                    self.begin_write();
+                    if k == 1 {
+                        self.savepoint(false);
+                    }
+                    writes(self, 1 + (variant % 2) as usize);
+                    nd(self, (variant + k) % 2 == 0);
+                    self.commit();
+                }
+                if self.dead {
+                    return;
+                }
+                self.begin_write();
+                if variant % 5 == 1 {
+                    writes(self, 1);
+                }
+                self.restore();
+                if variant % 5 == 0 && !self.dead {
+                    self.restore();
+                }
+            }
         }
     }
 }
 
 fn run_history(g: &mut Gen, steps: usize) {
     g.after("create", Kind::Opaque);
-    if g.hist % 3 == 1 {
-        let v = g.r.below(60);
+    if g.hist % 2 == 1 {
+        let v = g.r.below(120);
         g.directed(v);
     }
     for _ in 0..steps {
